@@ -2241,4 +2241,19 @@ def concrete_str_method(it, s, name, args, kwargs, node):
 METHODS[('SCounter', 'items')] = sc_items
 METHODS[('SCounter', 'elements')] = sc_elements
 METHODS[('SCounter', 'get')] = sc_get
+
+
+def sc_update(it, c, args, kw, node):
+    """Counter.update(iterable): the counted sequence grows; the counter is marked as modified (frame checks)."""
+    c.mutated = True
+    src = args[0] if args else MList()
+    if isinstance(src, SCounter):
+        src = src.seq
+    elif isinstance(src, SSet):
+        src = src.seq
+    extra = it.to_seq(src) if it.concrete_items(src) is None else Seq([Lit(x) for x in it.concrete_items(src)])
+    c.seq = Seq(list(c.seq.nodes) + list(extra.nodes))
+
+
+METHODS[('SCounter', 'update')] = sc_update
 METHODS[('SCounter', 'keys')] = lambda it, c, args, kw, node: SSet(c.seq, 'counter-keys')
